@@ -3,6 +3,7 @@
    list, sumbool, sumor.  No Extract Constant.  N / positive / nat / Z stay inductive. *)
 From Coq Require Extraction.
 From Coq Require Import ExtrOcamlBasic.
-From RaftV Require Import Base Quorum.
+From RaftV Require Import Base Quorum Types Progress Tracker Storage Log Raft RawNode.
 Extraction "model.ml" Base.sub64 Quorum.majority_committed Quorum.joint_committed
-  Quorum.majority_vote Quorum.joint_vote Quorum.joint_ids.
+  Quorum.majority_vote Quorum.joint_vote Quorum.joint_ids
+  Types.entry_size Storage.limit_size Progress.infl_window Progress.infl_full RawNode.node_step RawNode.init_node.
